@@ -683,6 +683,9 @@ PROPS["C03"]["families"].append(dict(client_family([], 500, 8000, {"faults": 0, 
 PROPS["C05"]["families"].append(dict(client_family([], 500, 8000, {"faults": 0, "sub": "fmt"}), tag="fmt", no_mech=True))
 PROPS["C06"]["families"].append(dict(server_family([], 500, 8000, {"fresh": 1, "faults": 0, "sub": "fmt"}), tag="fmt", no_mech=True))
 PROPS["C12"]["families"].append(dict(server_family([], 500, 8000, {"fresh": 1, "faults": 0, "limit": "some", "sub": "fmt"}), tag="fmt", no_mech=True))
+# deadlines of 12 hours / 2 days with clock steps of 9 and 30 hours (between the minutes everybody tests and the timer queue's range)
+PROPS["C05"]["families"].append(dict(client_family([], 600, 8000, {"faults": 0, "hours": 1}), tag="hours", no_mech=True))
+PROPS["C06"]["families"].append(dict(server_family([], 600, 8000, {"fresh": 1, "faults": 0, "hours": 1}), tag="hours", no_mech=True))
 PROPS["C02"]["families"].append(burst_family("reply", "deadline", "fault"))
 # the server's and the handlers' wake-ups: the request stream alone (Inv_C02s: everything pushed is read, a closed peer is
 # noticed, at settle points) and real client -> server -> handler chains (nothing pending at quiescence)
@@ -997,6 +1000,20 @@ def sys_fixed(tier):
                          + [{"a": "Run"}] + [{"a": "Complete", "c": i} for i in range(1, j + 1)]
                          + [{"a": "Abandon", "c": i} for i in range(j + 1, n + 1)] + [{"a": "DropClient", "k": 1}, {"a": "Run"}])
                 out.append(dict(id="sysburst:shutdown:%s:%d:%d" % (tr, n, j), cfg=cfg, steps=steps))
+    # channel closes at scale: m channels with other keys and one with key K hang up in the same step in which a new channel with key K
+    # arrives (more close notifications than the runtime's per-poll budget are queued when the limiter is polled); then one more K arrives
+    for m in ((200,) if tier == "quick" else (100, 200, 500)):
+        for first in (True, False):
+            K = 9999
+            cfg = {"n": 1, "limit": -1, "maxInFlight": 16, "buf": 16, "respBuf": 4}
+            others = [{"a": "Connect", "k": i, "key": i} for i in range(1, m + 1)]
+            a = [{"a": "Connect", "k": m + 1, "key": K}]
+            steps = ((a + others) if first else (others + a)) + [{"a": "Run"}]
+            drops = [{"a": "DropClient", "k": i} for i in range(1, m + 1)]
+            steps += ([{"a": "DropClient", "k": m + 1}] + drops) if first else (drops + [{"a": "DropClient", "k": m + 1}])
+            steps += [{"a": "Connect", "k": m + 2, "key": K}, {"a": "Run"}, {"a": "Connect", "k": m + 3, "key": K}, {"a": "Run"},
+                      {"a": "Call", "c": 1, "k": m + 2, "dl": 100000}, {"a": "Run"}, {"a": "Complete", "c": 1}, {"a": "Run"}]
+            out.append(dict(id="sysburst:closes:%d:%s" % (m, "first" if first else "last"), cfg=cfg, steps=steps))
     return out
 
 
